@@ -26,6 +26,9 @@ impl Irs {
     pub fn stored(e: &Env, account: Address) -> Address { irs::stored_identity(e, &account) }
     pub fn recovered_to(e: &Env, old: Address) -> Option<Address> { irs::get_recovered_to(e, &old) }
     pub fn countries(e: &Env, account: Address) -> Vec<CountryData> { irs::get_country_data_entries(e, &account) }
+    pub fn mod_country(e: &Env, account: Address, index: u32, code: u32) { irs::modify_country_data(e, &account, index, &cd(code)) }
+    pub fn country_at(e: &Env, account: Address, index: u32) -> CountryData { irs::get_country_data(e, &account, index) }
+    pub fn profile_len(e: &Env, account: Address) -> u32 { irs::get_identity_profile(e, &account).countries.len() }
 }
 
 #[derive(Clone, Debug, Serialize, Deserialize)]
@@ -38,6 +41,7 @@ pub enum Step {
     Recover { old: usize, new: usize },
     AddCountry { acc: usize, code: u32 },
     DelCountry { acc: usize, idx: u32 },
+    ModCountry { acc: usize, idx: u32, code: u32 },
 }
 #[derive(Clone, Debug, Serialize, Deserialize)]
 pub struct Cfg { pub accounts: usize }
@@ -49,7 +53,7 @@ impl Check for IrsCheck {
     fn id(&self) -> &'static str { "irs" }
     fn runs(&self, tier: Tier) -> u64 {
         if tier == Tier::Quick {
-            4000
+            2000
         } else {
             100000
         }
@@ -68,6 +72,7 @@ impl Check for IrsCheck {
                 38..=45 => Step::Modify { acc, ident: rng.below(4) as usize },
                 46..=63 => Step::Recover { old: acc, new: rng.below(n) as usize },
                 64..=87 => Step::AddCountry { acc, code: rng.below(900) as u32 },
+                88..=93 => Step::ModCountry { acc, idx: rng.below(5) as u32, code: rng.below(900) as u32 },
                 _ => Step::DelCountry { acc, idx: rng.below(4) as u32 },
             });
         }
@@ -129,6 +134,12 @@ impl Check for IrsCheck {
                     if x { reg.get_mut(a).unwrap().1.remove(*idx as usize); }
                     ("delete_country_data", g, x)
                 }
+                Step::ModCountry { acc: a, idx, code } => {
+                    let g = c.try_mod_country(&acc(*a), idx, code).is_ok();
+                    let x = reg.get(a).map(|r| (*idx as usize) < r.1.len()).unwrap_or(false);
+                    if x { reg.get_mut(a).unwrap().1[*idx as usize] = *code; }
+                    ("modify_country_data", g, x)
+                }
             };
             if kind != "wait" {
                 st.tx(kind, got);
@@ -150,6 +161,19 @@ impl Check for IrsCheck {
                 let have: std::vec::Vec<u32> = cs.iter().map(|x| match x.country { CountryRelation::Individual(IndividualCountryRelation::Residence(k)) => k, _ => 0 }).collect();
                 if have != want { return Err(violation("irs.getters_eq_model", "country_data", i, format!("account {a}: {have:?} vs {want:?} after {s:?}"))); }
                 if want.len() == 15 { st.hit("probe.country_limit_reached"); }
+                // index-based access enumerates every entry exactly once; one past the end fails; the profile agrees
+                for (k, code) in want.iter().enumerate() {
+                    match c.try_country_at(&acc(a), &(k as u32)) {
+                        Ok(Ok(x)) if matches!(x.country, CountryRelation::Individual(IndividualCountryRelation::Residence(v)) if v == *code) => {}
+                        _ => return Err(violation("irs.enum_each_once", "get_country_data", i, format!("account {a} index {k}: not the model's entry {code} after {s:?}"))),
+                    }
+                }
+                if c.try_country_at(&acc(a), &(want.len() as u32)).is_ok() { return Err(violation("irs.enum_each_once", "past_end", i, format!("account {a}: index == len answers after {s:?}"))); }
+                match (c.try_profile_len(&acc(a)), reg.contains_key(&a)) {
+                    (Ok(Ok(l)), true) if l as usize == want.len() => {}
+                    (Err(_), false) => {}
+                    (r, _) => return Err(violation("irs.getters_eq_model", "get_identity_profile", i, format!("account {a}: profile {:?}, model {} entries after {s:?}", r.map(|x| x.ok()), want.len()))),
+                }
             }
             st.state(&(reg.keys().cloned().collect::<std::vec::Vec<_>>(), rec.clone()));
         }
